@@ -306,6 +306,8 @@ def main(tier, seed):
         'iterated, the documentation does not say which failure is reported: any of their classes is permitted; cases '
         'where that order decides between a GlomError and a foreign error are enumerated but not compared',
         'results are compared with == (the property says "equal"), not by class of the rebuilt containers',
+        'defaults that are instances of dict / list subclasses (OrderedDict ...) are outside the universe: argument mode '
+        'rebuilds exact builtin containers only, by design',
         'alternatives of set / frozenset patterns are hashable leaves; no floats, bytes or user classes',
         'TLC, the Json community module and the codec are trusted']
     if problems and not check.violations:
